@@ -3,8 +3,10 @@ import TwistedModel.Http.Chunked
 Driver glue for C22.  Bytes on the wire: lower-case hex, `-` = empty.  Deliveries: hex strings
 joined by `,`; `none` = no delivery at all.
   `C22 chunked <end:0|1> <deliveries>`          → `data=<b> fin=<b>;<b>…|none exc=<Class>@<i>|-`
-  `C22 identity <n|none> <end:0|1> <deliveries>` → same shape
-      (`end=1`: `noMoreData()` is called after the last delivery unless a delivery raised; a raise in it is `@end`)
+  `C22 identity <n|none> <end:0|1|2|3> <deliveries>` → same shape
+      (`end=1`: `noMoreData()` is called after the last delivery unless a delivery raised; a raise in it is `@end`;
+       identity only — `end=2`: `noMoreData()` twice, `end=3`: `noMoreData()` then `dataReceived(b"x")`;
+       the events of the two calls are joined by `+`: `<Class>@end|-` `+` `<Class>@end2|<Class>@post|-`)
   `C22 hexint <b>` / `C22 decint <b>`           → decimal value or `!raised ValueError`
   `C22 tochunk <b>`                             → `b"".join(toChunk(b))`
 -/
@@ -59,20 +61,34 @@ def runChunked (s : Dec) (i : Nat) : List Bytes → Bool → String
     | .ok s' => runChunked s' (i + 1) cs doEnd
     | .error (e, s') => render s'.data s'.fin (errName e ++ "@" ++ toString i)
 
-def runIdent (s : Ident) (i : Nat) : List Bytes → Bool → String
-  | [], doEnd =>
-    if doEnd then
-      match Ident.noMoreData s with
-      | .ok s' => render s'.data s'.fin "-"
-      | .error (e, s') => render s'.data s'.fin (errName e ++ "@end")
-    else render s.data s.fin "-"
-  | d :: cs, doEnd =>
+/-- `noMoreData()`; the decoder afterwards (whether it raised or not) and the event -/
+def identEnd (s : Ident) (at_ : String) : Ident × String :=
+  match Ident.noMoreData s with
+  | .ok s' => (s', "-")
+  | .error (e, s') => (s', errName e ++ "@" ++ at_)
+
+def runIdent (s : Ident) (i : Nat) : List Bytes → Nat → String
+  | [], 0 => render s.data s.fin "-"
+  | [], 1 => let (s1, e1) := identEnd s "end"; render s1.data s1.fin e1
+  | [], 2 =>
+    let (s1, e1) := identEnd s "end"
+    let (s2, e2) := identEnd s1 "end2"
+    render s2.data s2.fin (e1 ++ "+" ++ e2)
+  | [], _ =>
+    let (s1, e1) := identEnd s "end"
+    match Ident.dataReceived s1 [120] with
+    | .ok s2 => render s2.data s2.fin (e1 ++ "+-")
+    | .error (e, s2) => render s2.data s2.fin (e1 ++ "+" ++ errName e ++ "@post")
+  | d :: cs, m =>
     match Ident.dataReceived s d with
-    | .ok s' => runIdent s' (i + 1) cs doEnd
+    | .ok s' => runIdent s' (i + 1) cs m
     | .error (e, s') => render s'.data s'.fin (errName e ++ "@" ++ toString i)
 
 def decEnd (s : String) : Option Bool :=
   if s = "1" then some true else if s = "0" then some false else none
+
+def decEndI (s : String) : Option Nat :=
+  if s = "0" then some 0 else if s = "1" then some 1 else if s = "2" then some 2 else if s = "3" then some 3 else none
 
 def handle (args : List String) : String :=
   match args with
@@ -81,7 +97,7 @@ def handle (args : List String) : String :=
     | some e, some ds => runChunked init 0 ds e
     | _, _ => "bad-op"
   | ["identity", n, e, ds] =>
-    match decEnd e, decDeliveries ds with
+    match decEndI e, decDeliveries ds with
     | some e, some ds =>
       if n = "none" then runIdent (Ident.init none) 0 ds e
       else match n.toNat? with
